@@ -5,12 +5,6 @@ strictly increasing axis, every requested point once, refusal iff not later, pie
 import MxlVerif.Lemmas.C04Refine
 namespace Mxl.C04
 
-/-- the contract of the steady-state solver assumed by the axis theorems: the time it reports
-    is later than its starting point -/
-def steadyPos : Op → Bool
-  | .steady (some d) => decide (0 < d)
-  | _ => true
-
 /-! ### `times` bookkeeping -/
 
 theorem times_none {σ} : times (none : Option (List (Seg σ))) = [] := rfl
@@ -209,8 +203,8 @@ theorem Continues.axis {σ} {S : Sys σ} {a a' : Spec σ} {g' : List Rat} {tEnd 
         grind
       · exact (hb t (List.mem_cons_of_mem _ h)).2
 
-theorem Spec.step_axis {σ} (S : Sys σ) (a : Spec σ) (op : Op) (ax : Spec.Axis a)
-    (hop : steadyPos op = true) : Spec.Axis (Spec.step S a op).1 := by
+theorem Spec.step_axis {σ} (S : Sys σ) (a : Spec σ) (op : Op) (ax : Spec.Axis a) :
+    Spec.Axis (Spec.step S a op).1 := by
   cases op with
   | simulate t n =>
     rcases Spec.simulate_cases S a t n with ⟨h, _⟩ | ⟨g', _, _, c⟩
@@ -225,10 +219,12 @@ theorem Spec.step_axis {σ} (S : Sys σ) (a : Spec σ) (op : Op) (ax : Spec.Axis
     by_cases hf : a.failed = true
     · simp only [hf, if_true]; exact ax
     · simp only [hf, if_false, Bool.false_eq_true]
-      cases res with
+      cases steadyIter res with
       | none => exact ⟨⟨ax.inv.none_now, ax.inv.some_last⟩, ax.sorted, ax.bound⟩
-      | some d =>
-        have hd : 0 < d := by simpa [steadyPos] using hop
+      | some k =>
+        simp only
+        have hd : 0 < steadyDur k := steadyDur_pos k
+        generalize steadyDur k = d at hd
         refine ⟨⟨fun hn => by simp at hn, fun l hl => ?_⟩, ?_, ?_⟩
         · simp only [Option.some.injEq] at hl
           subst hl
@@ -265,11 +261,9 @@ theorem Spec.step_axis {σ} (S : Sys σ) (a : Spec σ) (op : Op) (ax : Spec.Axis
       by simp [Spec.step, Spec.clear, times], by simp [Spec.step, Spec.clear, times]⟩
 
 theorem Spec.run_axis {σ} (S : Sys σ) : ∀ (ops : List Op) (a : Spec σ), Spec.Axis a →
-    ops.all steadyPos = true → Spec.Axis (Spec.run S a ops).1
-  | [], _, ax, _ => ax
-  | op :: rest, a, ax, h => by
-    simp only [List.all_cons, Bool.and_eq_true] at h
-    exact Spec.run_axis S rest _ (Spec.step_axis S a op ax h.1) h.2
+    Spec.Axis (Spec.run S a ops).1
+  | [], _, ax => ax
+  | op :: rest, a, ax => Spec.run_axis S rest _ (Spec.step_axis S a op ax)
 
 /-! ### refusal, requested points, flow -/
 
